@@ -89,12 +89,14 @@ def admissible_styles():
 # ------------------------------------------------------------------------- metadata export
 SC = 'sc'          # hierarchical list <-> '; '.join
 NAIVE = 'naive'    # plain text, identity both ways
-FORMAT = {SC: lambda x: '; '.join(x), NAIVE: lambda x: x}
-INVERSE = {SC: lambda s: [e.strip() for e in s.split(';')], NAIVE: lambda s: s}
+NAIVE_NONE = 'naive_none'      # text categories that are missing on some observations: None <-> 'NA'
+FORMAT = {SC: lambda x: '; '.join(x), NAIVE: lambda x: x, NAIVE_NONE: lambda x: 'NA' if x is None else x}
+INVERSE = {SC: lambda s: [e.strip() for e in s.split(';')], NAIVE: lambda s: s,
+           NAIVE_NONE: lambda s: None if s == 'NA' else s}
 CLI_FMT = {SC: 'sc_separated', NAIVE: 'naive'}
 CLI_PROC = {SC: 'taxonomy', NAIVE: 'naive'}
 EXPORT_OF = {'taxonomy': ('taxonomy', SC), 'taxonomy_ragged': ('taxonomy', SC), 'taxonomy_gap': ('taxonomy', SC),
-             'text': ('label', NAIVE), 'two': ('label', NAIVE)}
+             'text': ('label', NAIVE), 'two': ('label', NAIVE), 'text_partial': ('label', NAIVE_NONE)}
 
 
 def is_number(s):
@@ -171,6 +173,21 @@ def cases(tier, seed):
                 out.append({'prod': 'B-col', 'shape': list(shape), 'mask': mask, 'rot': rot, 'obs_md': md,
                             'export': md != 'none', 'obs_col': col, 'layout': 'csr',
                             'writers': ['to_tsv', 'direct_io'], 'readers': READERS})
+    # the exported category missing (no metadata at all) on one observation only; through the API writers / readers
+    api_readers = [r for r in READERS if not r.startswith('convert_')]
+    for shape, mask in fixed_masks(tier):
+        if shape[0] >= 2:
+            for hv in (None, 'Consensus Lineage'):
+                out.append({'prod': 'B-partial', 'shape': list(shape), 'mask': mask, 'rot': rot, 'obs_md': 'text_partial',
+                            'export': True, 'header_value': hv, 'layout': 'csr',
+                            'writers': ['to_tsv', 'direct_io'], 'readers': api_readers})
+    # more observations than any block size a writer might use; single-precision sparse input
+    out.append({'prod': 'B-big', 'shape': [230, 2], 'mask': int('110101' * 77, 2) & ((1 << 460) - 1), 'rot': rot,
+                'obs_md': 'none', 'export': False, 'layout': 'csr', 'writers': ['to_tsv', 'direct_io'],
+                'readers': ['lines', 'file_handle', 'load_path']})
+    for k in range(len(D.HARD + EXTRA)):
+        out.append({'prod': 'V32', 'shape': [1, 2], 'value_index': k, 'sign': -1 if k % 2 else 1, 'pos': k % 2,
+                    'obs_md': 'none', 'export': False, 'writers': CHEAP_WRITERS, 'readers': CHEAP_READERS})
     for shape, zv in D.CANCEL:
         out.append({'prod': 'Z', 'shape': list(shape), 'zvals': list(zv), 'obs_md': 'none', 'export': False,
                     'writers': WRITERS, 'readers': READERS})
@@ -206,6 +223,17 @@ def build(case):
     if case['prod'] == 'Z':
         M = np.array(case['zvals'], float).reshape(shape)
         return Table(M, ids_for('plain', 'observation', shape[0]), ids_for('plain', 'sample', shape[1]))
+    if case['prod'] == 'V32':
+        # the caller holds the matrix as a single-precision scipy matrix; the table's values are those numbers
+        import scipy.sparse as sp
+        vals = D.HARD + EXTRA
+        M = np.zeros(shape, np.float32)
+        with np.errstate(over='ignore', under='ignore'):
+            M.flat[case['pos']] = np.float32(case['sign'] * vals[case['value_index']])
+            M.flat[1 - case['pos']] = np.float32(1) / np.float32(3)
+        if not np.isfinite(M).all():
+            return None
+        return Table(sp.csr_matrix(M), ids_for('plain', 'observation', shape[0]), ids_for('plain', 'sample', shape[1]))
     if case['prod'] == 'V':
         vals = D.HARD + EXTRA
         M = np.zeros(shape)
@@ -216,9 +244,16 @@ def build(case):
                                                    'layout')}
     spec['obs_style'] = so if so in D.ID_STYLES else 'plain'
     spec['samp_style'] = ss if ss in D.ID_STYLES else 'plain'
+    partial = spec.get('obs_md') == 'text_partial'
+    if partial:
+        spec['obs_md'] = 'text'
     t = D.build(spec)
     if t is None:
         return None
+    if partial:
+        omd = [None if i == 1 else dict(m) for i, m in enumerate(t.metadata(axis='observation'))]
+        t = Table(t.matrix_data.copy(), [str(i) for i in t.ids('observation')], [str(i) for i in t.ids()], omd,
+                  t.metadata(), type=t.type)
     # styles defined in this module: rename in place (keeps the layout prefix); the oracle
     # reads the ids back from the table, so it does not rely on update_ids being right
     for st, ax, n in ((so, 'observation', shape[0]), (ss, 'sample', shape[1])):
@@ -345,7 +380,7 @@ def check(case, acc, tmp):
     if case['export']:
         key, fmt_name = EXPORT_OF[case['obs_md']]
         name = case.get('header_value') or key
-        exp_md = [pyify(m[key]) for m in t.metadata(axis='observation')]
+        exp_md = [pyify(m.get(key)) for m in t.metadata(axis='observation')]      # .get: indexing a defaultdict entry would insert the key
         for e in exp_md:
             txt = FORMAT[fmt_name](e)
             if is_number(txt) or txt != txt.strip() or '\t' in txt or '\n' in txt:
@@ -659,7 +694,7 @@ def check_sub(case, acc, tmp):
     key, fmt_name, exp_md = None, None, None
     if case['export']:
         key, fmt_name = EXPORT_OF[case['obs_md']]
-        exp_md = [pyify(m[key]) for m in t.metadata(axis='observation')]
+        exp_md = [pyify(m.get(key)) for m in t.metadata(axis='observation')]      # .get: indexing a defaultdict entry would insert the key
     ckey = h64(json.dumps(case, sort_keys=True))
     acc.nontrivial.add(ckey)
     base = os.path.join(tmp, 'c03sub_%016x' % ckey)
@@ -836,7 +871,7 @@ def run(run):
     need = ['clause:history-roundtrip', 'clause:history-roundtrip-metadata', 'clause:second-generation', 'clause:text-ids', 'clause:text-values', 'clause:text-metadata', 'clause:read-ids',
             'clause:read-values', 'clause:read-metadata'] + \
         ['reader:' + r for r in READERS] + ['writer:' + w for w in WRITERS] + \
-        ['prod:A', 'prod:CV', 'prod:B-ids', 'prod:B-md', 'prod:B-col', 'prod:V'] + ['style:' + s for s in ok] + \
+        ['prod:A', 'prod:CV', 'prod:B-ids', 'prod:B-md', 'prod:B-col', 'prod:B-partial', 'prod:B-big', 'prod:V32', 'prod:V'] + ['style:' + s for s in ok] + \
         ['md:taxonomy:exported', 'md:taxonomy_ragged:exported', 'md:text:exported', 'md:none:not-exported'] + \
         ['shape:1x1', 'shape:1x3', 'shape:3x1', 'shape:2x3']
     if not run.quick and os.path.exists(BIOM_EXE):
